@@ -85,18 +85,18 @@ PROPS = {
     'C17': dict(suites=['agent'], monitors=['C17'], rule=AGENT_RULE, assumptions=AGENT_ASSUME + []),
     'C04': dict(suites=['wire'], monitors=['C04acc', 'C04fault', 'C04key'], rule=WIRE_RULE, assumptions=WIRE_ASSUME),
     'C10': dict(suites=['wire', 'agent'], monitors=['C10acc', 'C10fault', 'C10'], rule=WIRE_RULE + ' + ' + AGENT_RULE, assumptions=WIRE_ASSUME + AGENT_ASSUME),
-    'C18': dict(suites=['filter', 'wire'], monitors=['C18all', 'C18', 'C18ud'], rule=WIRE_RULE + ' + suite filter (see C09)', assumptions=WIRE_ASSUME),
+    'C18': dict(suites=['filter', 'wire'], monitors=['C18all', 'C18', 'C18ud'], rule=WIRE_RULE + '; the option relations are judged twice: on sizes and wire positions, and on positions combined with a digest of every decoded attribute value (same message = same values); one base message in five carries raw special-character text (non-ASCII white space, non-NFC sequences, compatibility characters) in USERNAME / SOFTWARE / REALM / NONCE / ERROR-CODE with a valid tail + suite filter (see C09)', assumptions=WIRE_ASSUME),
     'C14': dict(suites=['encbuf', 'encbuf-release'], monitors=['C14'],
                 rule='suite encbuf (debug build with overflow checks, and release build): generated messages (DATA, SOFTWARE, PRIORITY, USE-CANDIDATE, MOBILITY-TICKET '
                      'values, every legal MI/SHA256/FINGERPRINT tail) encoded into buffers of EVERY length 0..needed+8, pre-filled with 0x00, 0xFF and a byte pattern; '
                      'attribute lists of 65,500..65,540, 70,000, 131,072 and 200,000 attribute bytes built from DATA chunks, one value of 65,536 bytes; the whole buffer '
-                     'after the call (md5) is compared with the Gallina encoder; distinct = distinct records; non-trivial = at least one attribute',
+                     'after the call (md5) is compared with the Gallina encoder, and the harness states whether buffer[size..] still holds the pre-filled bytes (monitor_C14_tail); distinct = distinct records; non-trivial = at least one attribute',
                 assumptions=['value encoders of the kinds used write exactly their value after checking the room (checked by the correspondence)']),
-    'C15': dict(suites=['agent'], monitors=['C15'], rule=AGENT_RULE + '; one history in ten is a long send/response sequence (20-150 transactions, response delays 1 ms .. 3 s, idle gaps 600 s -1/+0/+1 ns and 1300 s)', assumptions=AGENT_ASSUME),
+    'C15': dict(suites=['agent'], monitors=['C15'], rule=AGENT_RULE + '; one history in ten is a long send/response sequence (20-150 transactions, response delays 1 ms .. 3 s, the next request placed exactly 600 s, 600 s -1/+1 ns after the previous SEND, inside and at the end of the previous request retransmission window + 600 s, and 1300 s later)', assumptions=AGENT_ASSUME),
     'C19': dict(suites=['valueapi'], monitors=['C19clone', 'C19api'],
                 rule='suite valueapi: scripts of 3-9 operations over {new, clone, add through either copy, read} on PasswordAlgorithms and UnknownAttributes with up to 6 bindings, '
                      'compared with the reference-counted heap model and with value semantics; sweeps under catch_unwind of the public constructors / accessors / conversions: all u16 '
-                     'for MessageType / MessageMethod / AlgorithmId / ErrorCode / turn integer types, all u8 for classes and families, ~900 strings over ASCII, multi-byte, quoting, '
+                     'for MessageType / MessageMethod / AlgorithmId / ErrorCode / turn integer types, all u8 for classes and families, ~3000 strings over ASCII, multi-byte, Unicode white space / combining / compatibility / zero-width characters, quoting, '
                      'cookie-prefix and boundary-length (507..510, 762..764, 64000, 64001) alphabets for every string constructor and key derivation; distinct = distinct records; '
                      'non-trivial = scripts with a clone, and every API sweep',
                 assumptions=['Arc is a hand-written model (reference-counted heap); documented panicking accessors (expect_*) are not called on mismatching variants']),
